@@ -1,4 +1,5 @@
 //! E4: network adversaries over scripted transports, through the `verif` facade of the network crate.
+mod c12;
 mod c13;
 mod c14;
 mod c18;
@@ -19,6 +20,7 @@ fn main() {
         ("C18", _) => c18::run(&args, &mut rep),
         ("C19", _) => c19::run(&args, &mut rep),
         ("C12", "pool") => pool::run(&args, &mut rep),
+        ("C12", _) => c12::run(&args, &mut rep),
         (p, m) => panic!("unknown property/mode {p}/{m}"),
     }
     std::process::exit(rep.finish());
